@@ -449,6 +449,33 @@ class NFEval:
         self.memo[n.nid] = r
         return r
 
+    def _index_struct(self, base, idx):
+        """Constant index / constant slice of a tuple value, through piecewise values; None if not applicable."""
+        if isinstance(base, PW):
+            a, b = self._index_struct(base.a, idx), self._index_struct(base.b, idx)
+            if a is None or b is None:
+                return None
+            return self.pw(base.ckey, a, b, base.cnode)
+        if not isinstance(base, Struct):
+            return None
+        if idx.kind == 'const' and isinstance(idx.val, int) and not isinstance(idx.val, bool):
+            if -len(base.items) <= idx.val < len(base.items):
+                return base.items[idx.val]
+            return None
+        if idx.kind == 'slice':
+            bounds = []
+            for a in idx.args[:3]:
+                if a is None or (a.kind == 'const' and a.val is None):
+                    bounds.append(None)
+                elif a.kind == 'const' and isinstance(a.val, int) and not isinstance(a.val, bool):
+                    bounds.append(a.val)
+                else:
+                    return None
+            while len(bounds) < 3:
+                bounds.append(None)
+            return Struct(base.items[slice(*bounds)])
+        return None
+
     def opaque(self, n, tag=None):
         self.opaque_count += 1
         return self.atom(tag or ('%s#%d' % (n.kind, n.nid)))
@@ -526,6 +553,9 @@ class NFEval:
                         return self.nf(x.args[2])
                     x = x.args[0]
             base = self.nf(bn)
+            picked = self._index_struct(base, idx)
+            if picked is not None:
+                return picked
             if isinstance(base, Struct) and idx.kind == 'const' and isinstance(idx.val, int) \
                     and -len(base.items) <= idx.val < len(base.items):
                 return base.items[idx.val]
